@@ -163,6 +163,7 @@ func Formats(c Case) (out Case) {
 			var pb *solver.Problem
 			var err error
 			r["d"], r["hasObjD"], r["objD"] = emptyDump(), false, M{"lits": []int{}, "w": []int{}}
+			r["counted"], r["count"] = false, 0
 			func() {
 				defer func() {
 					if x := recover(); x != nil {
@@ -199,6 +200,22 @@ func Formats(c Case) (out Case) {
 				}
 				r["d"] = DumpProblem(pb)
 				r["hasObjD"], r["objD"] = objDump(pb)
+				// what the SOLVER makes of the parsed problem: the same text parsed once more and counted (a
+				// problem that is equivalent to the text when read statically may still be one the search
+				// mishandles, e.g. constraints that kept literals fixed at parse time)
+				if pb.NbVars <= 12 {
+					var pb2 *solver.Problem
+					var err2 error
+					if str(c, "kind") == "cnf" {
+						pb2, err2 = solver.ParseCNF(strings.NewReader(text))
+					} else {
+						pb2, err2 = solver.ParseOPB(strings.NewReader(text))
+					}
+					if err2 == nil {
+						r["counted"], r["count"] = true, -1
+						r["count"] = solver.New(pb2).CountModels()
+					}
+				}
 			}()
 			r["text"] = text
 		case "eparse": // explain.ParseCNF
